@@ -379,6 +379,6 @@ func c12Variants() []Variant {
 	return []Variant{
 		{Name: "drop-switchon-equality", File: f, Old: "			isValid = isValid && curr.NextSwitchOn == prev.NextSwitchOn\n", New: "", Rule: "C12.W1", Construct: "on-going.NextSwitchOn"},
 		{Name: "approve-outside-window", File: f, Old: "					curr.NextApprovals == prev.NextApprovals &&\n					prev.NextApprovals >= prevProto.UpgradeThreshold", New: "					(curr.NextApprovals == prev.NextApprovals || curr.NextApprovals == prev.NextApprovals+1) &&\n					curr.NextApprovals >= prevProto.UpgradeThreshold", Rule: "C12.W2", Construct: "approval-window"},
-		{Name: "import-without-verify", File: "core/blockchain.go", Old: "	if i, err := bc.VerifyYouVersionState(chain); err != nil {", New: "	if i, err := bc.VerifyYouVersionState(chain); err != nil && false {", Rule: "C12.W3", Construct: "verify-before-import"},
+		{Name: "import-without-verify", File: "core/blockchain.go", Old: "	i, err := bc.VerifyYouVersionState(chain)\n	if err != nil {", New: "	i, err := bc.VerifyYouVersionState(chain)\n	if err != nil && i < 0 {", Rule: "C12.W3", Construct: "verify-before-import"},
 	}
 }
